@@ -1,6 +1,7 @@
 """Shared pieces of the world-level generators: option swarms, pools, content, trees, knobs."""
 import ipaddress
 import posixpath
+import re
 
 from . import grammar as G
 
@@ -70,6 +71,23 @@ def gen_opts(r, features=None, cli_safe=True, j9=False):
 
 DIRECTED_IMAGES = [0x00000007, 0x0000FFFF, 0x80000000, 0xFFFFFF00, 0xFFFF0000, 0xFFFFFFFE, 0x000000FF, 0xE0000005, 0xE0000012,
                    0xE00000FB, 0x7F000001, 0xA9FE0001, 0xC0000201, 0x64400001, 0xFFFFFFFF, 0x00000000, 0x0A000001, 0xC0A80101]
+
+
+def boundary_line(r, ctx, boundary=None):
+    """One very long line with address tokens packed around a power-of-two offset (reader block sizes)."""
+    boundary = boundary or r.choice([8192, 65536, 65536, 131072])
+    pad = boundary - r.randint(10, 150)
+    segs = [["lit", "! " + "x" * (pad - 2) + " "]]
+    for i in range(r.randint(10, 16)):
+        if ctx["a6"] and r.random() < 0.3:
+            v = r.choice(ctx["a6"])
+            segs.append(["a6", G.tok6(r, v), {"v": v}])
+        else:
+            v = r.choice(ctx["a4"])
+            segs.append(["a4", G.tok4(r, v, zeros=False), {"v": v}])
+        segs.append(["lit", " "])
+    segs.append(["lit", "end"])
+    return {"segs": segs, "eol": "\n"}
 
 
 def directed_line(r):
@@ -275,6 +293,17 @@ def secret_line(r, ctx, secrets, kinds=("keep", "scrub"), ident=None, templates=
                 merged[-1][1] += s[1]
             else:
                 merged.append(s)
+        if ctx.get("words") and r.random() < 0.15:
+            # a listed sensitive word inside the kept context (a user / group / vrf name)
+            for sg in merged:
+                if sg[0] == "lit":
+                    m = re.search(r"Someone|Something|bob\b", sg[1])
+                    if m:
+                        i = merged.index(sg)
+                        wi = r.randrange(len(ctx["words"]))
+                        merged[i:i + 1] = [["lit", sg[1][:m.start()]], ["w", ctx["words"][wi].lower(), {"w": wi}],
+                                           ["lit", "-adm" + sg[1][m.end():]]]
+                        break
         if r.random() < 0.07:
             # an exotic whitespace character (a line boundary for str.splitlines, plain whitespace for
             # a text-mode reader) between two words of the kept context
